@@ -723,8 +723,50 @@ ComponentNameMap createComponentNamesMap(const ComponentPtr &component)
     return nameMap;
 }
 
+bool unitsCycleFrom(const UnitsConstPtr &units, std::vector<const Units *> &path, std::vector<const Units *> &done)
+{
+    if ((units == nullptr) || (std::find(done.begin(), done.end(), units.get()) != done.end())) {
+        return false;
+    }
+    if (std::find(path.begin(), path.end(), units.get()) != path.end()) {
+        return true;
+    }
+    path.push_back(units.get());
+    bool res = false;
+    if (units->isImport()) {
+        auto importSource = units->importSource();
+        if ((importSource != nullptr) && (importSource->model() != nullptr)) {
+            res = unitsCycleFrom(importSource->model()->units(units->importReference()), path, done);
+        }
+    } else {
+        auto model = owningModel(units);
+        for (size_t index = 0; (model != nullptr) && !res && (index < units->unitCount()); ++index) {
+            const std::string ref = units->unitAttributeReference(index);
+            if (!isStandardUnitName(ref)) {
+                res = unitsCycleFrom(model->units(ref), path, done);
+            }
+        }
+    }
+    path.pop_back();
+    done.push_back(units.get());
+    return res;
+}
+
+bool hasUnitsCycle(const UnitsConstPtr &units)
+{
+    std::vector<const Units *> path;
+    std::vector<const Units *> done;
+    return unitsCycleFrom(units, path, done);
+}
+
 std::vector<UnitsPtr> referencedUnits(const ModelPtr &model, const UnitsPtr &units)
 {
+    // Note: units with a cyclic definition do not have a finite list of
+    //       referenced units.
+    if (hasUnitsCycle(units)) {
+        return {};
+    }
+
     std::vector<UnitsPtr> requiredUnits;
 
     for (size_t index = 0; index < units->unitCount(); ++index) {
